@@ -46,6 +46,37 @@ CLAIMS = {
    text="Over a pool of 10 CIE/FDE programs (succeeding with 0/1/many initial rules, failing in the CIE, failing mid-FDE, overflowing rows / rules, leaving remembered rows behind) every history of uses of ONE model UnwindContext per storage (driven to completion or abandoned by unwind_info_for_address) is explored by TLC with the model carrying state across uses exactly as the code does; invariant: each use observes what a new context observes. Reuse.tla does the same for entry buffers reused across entries with 0-3 attributes and across errors, cursor clones at every position continued in both orders, EntriesTree::root after every partial traversal, and AbbreviationsCache under {none, Duplicates, All} x unit sequences over 7 abbreviation offsets incl. invalid ones. All cases are replayed on reused and on fresh state; random histories on long-lived contexts are validated by the trace spec.",
    note="Exhaustive for histories <= 2 (quick) / 3 (thorough) over 20 step kinds, DIE streams <= 3/4 tokens, unit sequences <= 3; longer histories by random traces. LineRows resume and other iterator kinds are covered by C04, not here.",
    technique="TLA+ history-composition models (persistent model state next to fresh state); TLC-enumerated histories replayed on the code + TLC trace validation"),
+
+ "C01": dict(
+   cat="exploration", ref="DESIGN.md §5 C01",
+   text="IterProto.tla specifies the lazy-iterator protocol for the iterator families as gimli codes them (remaining-bytes, cooked, count, chain); TLC checks Fused, Bounded, refinement of the abstract variant machine and termination under fairness, and that two deliberately broken families are refuted. gvh-robust drives 226-236 public entry points (every section reader, index lookup, Operation::parse, evaluation with arbitrary resume answers, unwind tables, .eh_frame_hdr search, die_ranges, Dwarf::from, FrameTable::from, stepwise conversion) on the self fixture, the gcc/clang corpus and writer-generated sections under seeded structure-aware mutation (truncation, flips, splices, extreme LEB/length/count/index values placed on fields the parsers really read, found through a traced clean run), a reader that fails the k-th operation, and every byte string of length <= 2 for the five decoder families, in BOTH build profiles; each call's outcome and each iterator's run-length-encoded result sequence become events that RobustTrace must accept (panic/abort/timeout events have no action; per-iterator sequences must be behaviours of IterProto). Two open known findings are printed as KNOWN-FINDING.",
+   note="The byte space is sampled, not enumerated (honest level: exploration judged by a model-checked protocol spec). A violation is always a concrete replayable recipe. Out-of-bounds reads that do not panic are not observable here (safe Rust turns them into panics; C10 covers the only unsafe reader).",
+   technique="TLA+ protocol spec IterProto model-checked by TLC; outcome/iterator traces of seeded mutation, truncation and fault-injection runs validated by TLC against RobustTrace"),
+ "C02": dict(
+   cat="model_checking", ref="DESIGN.md §5 C02",
+   text="Dies.tla / Abbrev.tla: unit-header encoder (v2-5, every unit type, 32/64-bit), forest -> token stream with sibling attributes in every reference form, and the machines as coded for EntriesRaw, EntriesCursor (next_entry/next_dfs/next_sibling incl. the sibling fast path), EntriesTree (Root/Descend/NextChild/Ascend) and the abbreviation store (dense vec + map, duplicate checks). TLC explores every forest of <= 4/5 entries x sibling-attribute subsets x padding x header variants x abbreviation-code schemes (sequential, permuted, sparse, codes up to 2^64-1) and for each the COMPLETE state graph of the cursor, tree and positioned raw reader from every entry offset, all 384 header layouts and every abbreviation insertion sequence of <= 4/5 codes; on every transition the machine-as-coded observation must equal the forest-semantics observation, and every transition is replayed on gimli. Recorded traversals (random interleavings, clones, re-rooting) of writer-built units of 50-2000 entries, the self fixture and the gcc/clang corpus are validated by DiesTrace.",
+   note="Exhaustive for the stated finite product; each transition is replayed from one witness script (other histories to the same state only through the random interleavings of the trace part). Well-formed units only; .dwp packages skipped; no llvm-dwarfdump comparison.",
+   technique="TLA+ machines Dies/Abbrev with refinement to forest semantics; TLC state-graph enumeration replayed on the code + TLC trace validation"),
+ "C03": dict(
+   cat="model_checking", ref="DESIGN.md §5 C03",
+   text="Forms.tla is an independent transcription of DWARF 7.5 (49 forms: class, size or variable, decode; conditions on version/format/address size; legacy data4/data8 section offsets per attribute name; indirect nesting; implicit_const) plus skip_attributes as coded. TLC enumerates every form x version 2-5 x format x address size 1/2/4/8 x byte order x boundary payloads, legacy names, nested DW_FORM_indirect, attribute lists <= 3 over neighbour size classes (incl. blocks whose length exceeds the data), 146 attribute names x 12 forms for value() normalisation, and the line-table attribute decoder; each case is a complete encoded unit with expected values, consumed sizes, skip position and advertised fixed sizes; inside TLC skip-as-coded = reading. All cases are replayed; observed raw/normalised values, the *_value conversions and every entry of the fixture and corpus units are validated by FormsTrace.",
+   note="Complete over the stated finite product; the oracle is the TLA+ form table, never gimli's own size function. Which variant value() picks per name is constrained to the value's class; payload preservation is exact. 64-bit host assumed.",
+   technique="TLA+ form table Forms; TLC enumeration replayed on the code + TLC trace validation of recorded attribute values"),
+ "C05": dict(
+   cat="model_checking", ref="DESIGN.md §5 C05",
+   text="CfiCodec.tla / CfiSection.tla: encoders and meanings of CIEs/FDEs of both section kinds, every DW_EH_PE byte (validity, pcrel/textrel/datarel/funcrel/aligned/indirect as coded), .eh_frame_hdr, and the machines CfiEntriesIter, fde_for_address and EhHdrTable::lookup as coded (window updates and Reader operations). TLC proves lookup-as-coded = greatest entry <= probe for every sorted table of <= 5/6 entries over 0..12 and every probe, and agreement of scan, hdr search and covering FDE for non-overlapping FDEs; every explored section (1-2 CIEs, 1-4 FDEs, any order, shared CIEs, terminators, 64-bit entries), augmentation string, encoding byte x context x bases x raw value and hdr table is replayed on gimli (entries, CIE binding, all three lookup paths, unwind row). Binary searches on random tables of 1-2000 FDEs are validated step by step through an interposing reader.",
+   note="Exhaustive for the stated finite alphabets; wide tables and 64-bit values by trace validation; no readelf/llvm-dwarfdump comparison.",
+   technique="TLA+ specs CfiCodec/CfiSection (binary-search theorem proved by TLC); TLC-generated sections replayed on the code + TLC trace validation of hdr searches"),
+ "C08": dict(
+   cat="model_checking", ref="DESIGN.md §5 C08",
+   text="Lists.tla models the wire format of every range/location list entry kind (legacy pairs, DW_RLE_*, DW_LLE_*, GNU split-DWARF v4), the raw and resolving iterators with the running base address exactly as convert_raw, the address-table and offset-table lookups and the Dwarf-level helpers (ranges_offset_from_raw, attr_ranges_offset, die_ranges, unit_ranges); TLC enumerates all lists up to 3/4 entries over boundary alphabets at address size 1 and root-DIE attribute sequences, checking inside the model that raw iteration = encoded entries, every yielded range is non-empty and below the tombstone for ANY list (incl. truncated), and that for well-formed lists the machine equals an independently written standard resolution; every state is replayed on gimli under all version/format/dwo settings; random long lists and arbitrary bytes at address sizes 1-8 are trace-validated with exact 64-bit arithmetic.",
+   note="Exhaustive over the stated alphabets at address size 1 (plus single-entry lists at 2/4/8); longer lists and wider addresses sampled by trace validation; no llvm-dwarfdump comparison. The non-empty/below-tombstone clause is enforced on list iterators, not on die_ranges' single low_pc/high_pc range.",
+   technique="TLA+ spec Lists (machine as coded vs. independent resolution, checked by TLC); TLC-generated lists replayed on the code + TLC trace validation"),
+ "C14": dict(
+   cat="model_checking", ref="DESIGN.md §5 C14",
+   text="FrameWriter.tla is a builder machine of write::FrameTable (add_cie de-duplication, lazy CIE emission, entry layout, augmentation and pointer encodings, advance_loc form by factored delta, exact factoring or error, decreasing offsets, padding) with a reference evaluator for the meaning of the supplied instructions; every explored builder script (advance_loc width boundaries x code alignment, every instruction variant x operand boundaries x data alignment, <= 2-3 CIEs x <= 2-3 FDEs) is executed on gimli, written as .debug_frame and .eh_frame, read back and compared: CIE parameters, FDE range/LSDA/personality, CIE binding, one CIE per distinct CIE, unwind state at every probe offset as the function offset -> (CFA, rules, args size), specific success/failure; observed entry lengths are validated against the padding rule by FrameWriterTrace.",
+   note="Exhaustive over the stated boundary alphabets; operands < 2^31 in magnitude; Address::Symbol not covered; only the padding rule has a trace binding.",
+   technique="TLA+ builder machine FrameWriter over CfiCodec with reference row evaluator; TLC-enumerated scripts replayed on writer+reader + TLC trace validation of padding"),
 }
 NOT_YET = "check not built yet in this session (see DESIGN.md §9 build order); not claimed"
 def main():
